@@ -271,6 +271,7 @@ let dispatch (f : string array) : string =
   | "spec_canon" -> op_spec_canon f
   | "spec_resolve" -> op_spec_resolve f
   | "spec_normal" -> op_spec_normal f
+  | "shape_c06" -> string_of_int (int_of_n (c06_shape (text_of_field_nn f.(1)) (text_of_field_nn f.(2))))
   | "suite" -> suite (int_of_string f.(1))
   | "spec_uri" -> spec_uri f
   | op -> "?unknown-op " ^ op
